@@ -602,36 +602,58 @@ HEAPS = {'thread_heap_small_': 'Small', 'thread_heap_medium_': 'Medium', 'thread
 ENUMS = {'small_': 'Small', 'medium': 'Medium', 'large': 'Large', 'huge': 'Huge', 'nostack': 'Nostack'}
 
 
-def parse_heaps():
-    tq = strip_comments(strip_pp(gen.read(TQHPP)))
-    _, cbody = func(tq, r'\bvoid\s+create_thread_object\s*', 'thread_queue::create_thread_object')
+END = {'front': 'HFront', 'back': 'HBack'}
+DEBUG_STMT = r'(?:::pika::detail::\w+\.debug\((?:[^;]|;(?!\}))*?\);)?'
+
+
+def parse_heap_code(path, what, var, create_call):
+    """the per-size heaps of one queue implementation (thread_queue.hpp, or queue_holder_thread.hpp for thread_queue_mc):
+    size -> heap chains of create_thread_object / recycle_thread and the ends of the std::list used"""
+    tq = strip_comments(strip_pp(gen.read(path)))
+    _, cbody = func(tq, r'\bvoid\s+create_thread_object\s*', what + '::create_thread_object')
     c = nows(cbody)
     chain = re.findall(r'if\(stacksize==parameters_\.(\w+)\)\{heap=&(\w+);\}', c)
     if len(chain) < 1 or c.count('heap=&') != len(chain):
-        fail('create_thread_object: cannot parse the stack size -> heap chain')
+        fail('%s::create_thread_object: cannot parse the stack size -> heap chain' % what)
     if 'std::ptrdiff_tconststacksize=data.scheduler_base->get_stack_size(data.stacksize);' not in c:
-        fail('create_thread_object: stack size is no longer data.scheduler_base->get_stack_size(data.stacksize)')
-    if 'if(!heap->empty()){thrd=heap->back();heap->pop_back();threads::detail::get_thread_id_data(thrd)->rebind(data);}' not in c:
-        fail('create_thread_object: the reuse branch (heap->back(); pop_back(); rebind) changed')
-    if 'p=threads::detail::thread_data_stackful::create(data,this,stacksize);' not in c:
-        fail('create_thread_object: the allocation branch changed')
+        fail('%s::create_thread_object: stack size is no longer data.scheduler_base->get_stack_size(data.stacksize)' % what)
+    if len(re.findall(r'stacksize=(?!=)', c)) != 1:
+        fail('%s::create_thread_object: a stack size (the local or data.stacksize) is assigned besides the initialisation' % what)
+    m = re.findall(r'if\(!heap->empty\(\)\)\{%s=heap->(\w+)\(\);heap->pop_(\w+)\(\);threads::detail::get_thread_id_data\(%s\)->rebind\(data\);%s\}else'
+                   % (var, var, DEBUG_STMT), c)
+    if len(m) != 1 or c.count('heap->') != 3:
+        fail('%s::create_thread_object: the reuse branch (if (!heap->empty()) { x = heap->END(); heap->pop_END(); rebind }) changed' % what)
+    if m[0][0] != m[0][1] or m[0][0] not in END:
+        fail('%s::create_thread_object: the reuse branch reads heap->%s() but removes with pop_%s()' % (what, m[0][0], m[0][1]))
+    take = END[m[0][0]]
+    if create_call not in c:
+        fail('%s::create_thread_object: the allocation branch changed' % what)
     create = []
     for p, h in chain:
         if p not in SIZEP or h not in HEAPS:
-            fail('create_thread_object: unknown size parameter / heap %s / %s' % (p, h))
+            fail('%s::create_thread_object: unknown size parameter / heap %s / %s' % (what, p, h))
         create.append((SIZEP[p], HEAPS[h]))
-    _, rbody = func(tq, r'\bvoid\s+recycle_thread\s*', 'thread_queue::recycle_thread')
+    _, rbody = func(tq, r'\bvoid\s+recycle_thread\s*', what + '::recycle_thread')
     r = nows(rbody)
-    if 'std::ptrdiff_tstacksize=threads::detail::get_thread_id_data(thrd)->get_stack_size();' not in r:
-        fail('recycle_thread: stack size is no longer the object\'s get_stack_size()')
-    rchain = re.findall(r'if\(stacksize==parameters_\.(\w+)\)\{(\w+)\.push_back\(thrd\);\}', r)
-    if len(rchain) < 1 or r.count('push_back') != len(rchain):
-        fail('recycle_thread: cannot parse the stack size -> heap chain')
+    if 'std::ptrdiff_tstacksize=threads::detail::get_thread_id_data(%s)->get_stack_size();' % var not in r:
+        fail('%s::recycle_thread: stack size is no longer the object\'s get_stack_size()' % what)
+    rchain = re.findall(r'if\(stacksize==parameters_\.(\w+)\)\{(\w+)\.push_(\w+)\(%s\);\}' % var, r)
+    if len(rchain) < 1 or r.count('push_') != len(rchain) or r.count('thread_heap_') != len(rchain):
+        fail('%s::recycle_thread: cannot parse the stack size -> heap chain' % what)
+    ends = sorted(set(e for _, _, e in rchain))
+    if len(ends) != 1 or ends[0] not in END:
+        fail('%s::recycle_thread: the heaps are not all written at the same end: %s' % (what, ends))
     recycle = []
-    for p, h in rchain:
+    for p, h, _ in rchain:
         if p not in SIZEP or h not in HEAPS:
-            fail('recycle_thread: unknown size parameter / heap %s / %s' % (p, h))
+            fail('%s::recycle_thread: unknown size parameter / heap %s / %s' % (what, p, h))
         recycle.append((SIZEP[p], HEAPS[h]))
+    return create, recycle, take, END[ends[0]]
+
+
+def parse_heaps():
+    create, recycle, take, put = parse_heap_code(TQHPP, 'thread_queue', 'thrd',
+                                                 'p=threads::detail::thread_data_stackful::create(data,this,stacksize);')
     sb = strip_comments(strip_pp(gen.read(SBHPP)))
     _, gbody = func(sb, r'std::ptrdiff_t\s+get_stack_size\s*\(\s*execution::thread_stacksize\s+stacksize\s*\)\s*const', 'scheduler_base::get_stack_size')
     g = nows(gbody)
@@ -649,38 +671,38 @@ def parse_heaps():
     th = strip_comments(strip_pp(gen.read(TDHPP)))
     if not re.search(r'get_stack_size\s*\(\s*\)\s*const\s*(?:noexcept\s*)?\{\s*return\s+stacksize_\s*;\s*\}', th):
         fail('thread_data::get_stack_size() no longer returns stacksize_')
-    return create, recycle, enum_map
+    return create, recycle, enum_map, take, put
 
 
 ENUMHPP = 'libs/pika/coroutines/include/pika/coroutines/thread_enums.hpp'
 
 
-def parse_current_resolution():
-    """thread_queue::create_thread: where `thread_stacksize::current` is replaced by the class of the creating task,
-    relative to the `if (data.run_now)` split into the immediate and the staged creation path; and the class
-    get_self_stacksize_enum() reports when the caller is not a pika thread"""
-    tq = strip_comments(strip_pp(gen.read(TQHPP)))
-    _, body = func(tq, r'\bvoid\s+create_thread\s*\(', 'thread_queue::create_thread')
-    b = nows(body)
-    res = 'if(data.stacksize==execution::thread_stacksize::current){data.stacksize=threads::detail::get_self_stacksize_enum();}'
+RES_STMT = 'if(data.stacksize==execution::thread_stacksize::current){data.stacksize=threads::detail::get_self_stacksize_enum();}'
+
+
+def resolution_site(b, what):
+    """b: whitespace-free body of a create_thread function; returns (site, start of the run_now block, its end)"""
+    res = RES_STMT
     split = 'if(data.run_now){'
     if b.count(split) != 1:
-        fail('thread_queue::create_thread: expected exactly one `if (data.run_now) {` split')
+        fail('%s: expected exactly one `if (data.run_now) {` split' % what)
     s0 = b.index(split)
     s1 = balanced(b, s0 + len(split) - 1, '{', '}')
     # the run_now block must leave the function (otherwise the code after it is not "the staged path only")
     if not b[s0:s1].rstrip('}').endswith('return;'):
-        fail('thread_queue::create_thread: the run_now block no longer ends with return')
+        fail('%s: the run_now block no longer ends with return' % what)
+    if re.findall(r'data\.run_now=(?!=)', b):
+        fail('%s: data.run_now is assigned inside the function' % what)
     occ = [m.start() for m in re.finditer(re.escape(res), b)]
     if len(re.findall(r'data\.stacksize=(?!=)', b)) != len(occ):
-        fail('thread_queue::create_thread: data.stacksize is assigned in a way the translator does not know')
+        fail('%s: data.stacksize is assigned in a way the translator does not know' % what)
     before = [i for i in occ if i < s0]
     inside = [i for i in occ if s0 <= i < s1]
     after = [i for i in occ if i >= s1]
     for i in before + after:
         # must be a top-level statement of the function body (brace depth 0)
-        if b[:i].count('{') != b[:i].count('}') + (0 if i < s0 else 0):
-            fail('thread_queue::create_thread: the resolution of `current` is nested inside another block')
+        if b[:i].count('{') != b[:i].count('}'):
+            fail('%s: the resolution of `current` is nested inside another block' % what)
     if before and not inside and not after:
         site = 'CurBeforeSplit'
     elif inside and not before and not after:
@@ -690,8 +712,66 @@ def parse_current_resolution():
     elif not occ:
         site = 'CurNever'
     else:
-        fail('thread_queue::create_thread: `current` is resolved at several places (%d before / %d inside / %d after the run_now block)'
-             % (len(before), len(inside), len(after)))
+        fail('%s: `current` is resolved at several places (%d before / %d inside / %d after the run_now block)'
+             % (what, len(before), len(inside), len(after)))
+    return site, s0, s1
+
+
+TQMC = 'libs/pika/schedulers/include/pika/schedulers/thread_queue_mc.hpp'
+QHT = 'libs/pika/schedulers/include/pika/schedulers/queue_holder_thread.hpp'
+SPQ = 'libs/pika/schedulers/include/pika/schedulers/shared_priority_queue_scheduler.hpp'
+
+
+def parse_mc():
+    """thread_queue_mc (shared-priority scheduler): its own copy of thread creation.  The thread objects and the per-size
+    heaps live in queue_holder_thread (create_thread_object / recycle_thread), the `current` resolution and the
+    run_now split in thread_queue_mc::create_thread, the conversion of staged descriptions in thread_queue_mc::add_new"""
+    create, recycle, take, put = parse_heap_code(QHT, 'queue_holder_thread', 'tid',
+                                                 'p=threads::detail::thread_data_stackful::create(data,this,stacksize);')
+    mc = strip_comments(strip_pp(gen.read(TQMC)))
+    _, body = func(mc, r'\bvoid\s+create_thread\s*\(', 'thread_queue_mc::create_thread')
+    b = nows(body)
+    site, s0, s1 = resolution_site(b, 'thread_queue_mc::create_thread')
+    if b[s0:s1].count('holder_->create_thread_object(tid,data);') != 1 or b.count('create_thread_object') != 1:
+        fail('thread_queue_mc::create_thread: the run_now block no longer calls holder_->create_thread_object(tid, data) (once, only there)')
+    if b[s1:].count('new_task_items_.push(task_description(std::move(data)));') != 1 or b.count('new_task_items_') != 1:
+        fail('thread_queue_mc::create_thread: the staged path no longer pushes task_description(std::move(data))')
+    if not re.search(r'using\s+task_description\s*=\s*threads::detail::thread_init_data\s*;', mc):
+        fail('thread_queue_mc: task_description is no longer thread_init_data')
+    _, abody = func(mc, r'\bstd::size_t\s+add_new\s*\(\s*std::int64_t\s+add_count\s*,\s*thread_queue_type\s*\*\s*addfrom\s*,\s*bool\s+stealing\s*\)',
+                    'thread_queue_mc::add_new')
+    ab = nows(abody)
+    if ('addfrom->new_task_items_.pop(task,stealing)' not in ab or 'threads::detail::thread_init_data&data=task;' not in ab
+            or ab.count('holder_->create_thread_object(tid,data);') != 1):
+        fail('thread_queue_mc::add_new: no longer creates the thread object from the popped task description through holder_')
+    # nothing else in the creation path of this scheduler touches the class; run_now is only ever turned off
+    for path, what in ((QHT, 'queue_holder_thread'), (SPQ, 'shared_priority_queue_scheduler'), (TQMC, 'thread_queue_mc')):
+        t = nows(strip_comments(strip_pp(gen.read(path))))
+        n_res = t.count(RES_STMT)
+        if n_res != (1 if path == TQMC and site != 'CurNever' else 0):
+            fail('%s: `current` is resolved %d times in this file' % (what, n_res))
+        if len(re.findall(r'\.stacksize=(?!=)', t)) != n_res:
+            fail('%s: the stack size class of the init data is assigned outside thread_queue_mc::create_thread\'s resolution of `current`' % what)
+        for v in re.findall(r'\brun_now=(?!=)(\w+)', t):
+            if v != 'false':
+                fail('%s: run_now is set to %s (the model only knows run_now being turned off)' % (what, v))
+    # the holder's heaps are touched by these two functions (and the destructor) only
+    q = nows(strip_comments(strip_pp(gen.read(QHT))))
+    if len(re.findall(r'thread_heap_\w+_\.(?:push|pop|insert|erase|splice|emplace|clear)', q)) != len(recycle):
+        fail('queue_holder_thread: the per-size heaps are modified outside create_thread_object / recycle_thread')
+    if len(re.findall(r'heap->(?!empty\(\))', q)) != 2:
+        fail('queue_holder_thread: the chosen heap is used outside the reuse branch of create_thread_object')
+    return create, recycle, take, put, site
+
+
+def parse_current_resolution():
+    """thread_queue::create_thread: where `thread_stacksize::current` is replaced by the class of the creating task,
+    relative to the `if (data.run_now)` split into the immediate and the staged creation path; and the class
+    get_self_stacksize_enum() reports when the caller is not a pika thread"""
+    tq = strip_comments(strip_pp(gen.read(TQHPP)))
+    _, body = func(tq, r'\bvoid\s+create_thread\s*\(', 'thread_queue::create_thread')
+    b = nows(body)
+    site, s0, s1 = resolution_site(b, 'thread_queue::create_thread')
     # create_thread_object is reached from the run_now block (creator's context) and from add_new (converting worker)
     if 'create_thread_object(thrd,data,lk);' not in b[s0:s1]:
         fail('thread_queue::create_thread: the run_now block no longer calls create_thread_object(thrd, data, lk)')
@@ -746,8 +826,9 @@ def gen_swapctx():
     lay = parse_layout()
     members, td_ctor, td_rebind, td_calls = parse_thread_data()
     c_ctor, c_exit, c_rebind, exit_calls = parse_coroutine()
-    create, recycle, enum_map = parse_heaps()
+    create, recycle, enum_map, tq_take, tq_put = parse_heaps()
     cur_site, no_self = parse_current_resolution()
+    mc_create, mc_recycle, mc_take, mc_put, mc_site = parse_mc()
     out = []
     out.append('(* GENERATED by tools/genmods/c12.py from $VERIF_REPO on every run of tools/check — do not edit. *)')
     out.append('From Coq Require Import ZArith List.')
@@ -791,6 +872,19 @@ def gen_swapctx():
     out.append('   the `if (data.run_now)` split; get_self_stacksize_enum() without a current pika thread *)')
     out.append('Definition current_resolution : cur_site := %s.' % cur_site)
     out.append('Definition no_self_class : sclass := %s.' % no_self)
+    out.append('(* which end of the heap (std::list) create_thread_object takes a recycled object from / recycle_thread puts it back at *)')
+    out.append('Definition tq_heap_take : hend := %s.' % tq_take)
+    out.append('Definition tq_heap_put : hend := %s.' % tq_put)
+    out.append('')
+    out.append('(* thread_queue_mc (shared-priority scheduler), its own copy: %s : create_thread_object / recycle_thread;' % QHT)
+    out.append('   %s : create_thread (resolution of `current`, run_now split), add_new *)' % TQMC)
+    out.append('Definition mc_create_chain : list (sclass * sclass) :=')
+    out.append('  ' + coq_list(['(%s, %s)' % x for x in mc_create]) + '.')
+    out.append('Definition mc_recycle_chain : list (sclass * sclass) :=')
+    out.append('  ' + coq_list(['(%s, %s)' % x for x in mc_recycle]) + '.')
+    out.append('Definition mc_heap_take : hend := %s.' % mc_take)
+    out.append('Definition mc_heap_put : hend := %s.' % mc_put)
+    out.append('Definition mc_current_resolution : cur_site := %s.' % mc_site)
     out.append('')
     changed = gen.write_if_changed('GenSwapctx.v', '\n'.join(out))
     return {'file': 'coq/Gen/GenSwapctx.v', 'changed': changed, 'instructions': len(instrs), 'asm': raw,
@@ -798,4 +892,6 @@ def gen_swapctx():
             'routines_called': lay['routines_called'],
             'td_ctor': len(td_ctor), 'td_rebind': len(td_rebind), 'coro_rebind': len(c_rebind),
             'create_chain': create, 'recycle_chain': recycle, 'current_resolution': cur_site, 'no_self_class': no_self,
+            'heap_ends': [tq_take, tq_put], 'mc_create_chain': mc_create, 'mc_recycle_chain': mc_recycle,
+            'mc_heap_ends': [mc_take, mc_put], 'mc_current_resolution': mc_site,
             'assumed_undefined': OPTIONAL_FEATURES}
